@@ -57,6 +57,14 @@ Theorem C11_reject_fully_undone : forall orc pol c fin c',
 Proof. exact step_fixed_unreported. Qed.
 Print Assumptions C11_reject_fully_undone.
 
+(* ... so whatever the tree (no well-formedness needed: a PEIM file sharing a
+   candidate's GUID is padded and un-padded again), a run that ends with an
+   empty report leaves the tree it was given *)
+Theorem C11_nothing_reported_nothing_changed : forall orc pol pred img nx c,
+  dxe_clean fixed orc pol pred img nx = Ok c -> c_rem c = [] -> c_img c = img.
+Proof. exact clean_unreported. Qed.
+Print Assumptions C11_nothing_reported_nothing_changed.
+
 (* ... because Remove followed by calling Undo until it is nil is the identity
    on the tree (any variant, any predicate, pad or not) *)
 Theorem C11_remove_unwind_identity : forall var pol pad p img nx img' u nx',
